@@ -62,6 +62,11 @@ EXTRA = [
     lambda: [1], lambda: [[]], lambda: {"value": 1}, lambda: (1,), lambda: {1}, lambda: b"1", lambda: bytearray(b"1"),
     lambda: decimal.Decimal("2147483648"), lambda: decimal.Decimal("-0"), lambda: decimal.Decimal("1E+2"), lambda: fractions.Fraction(3, 1),
     lambda: fractions.Fraction(-7, 2), lambda: complex(2, 0), lambda: complex(0, 1),
+    # exact non-integral numbers that ROUND to an integer in double precision (integrality must be decided exactly)
+    lambda: decimal.Decimal("41.99999999999999999999"), lambda: decimal.Decimal("1.0000000000000000000001"),
+    lambda: decimal.Decimal("2147483646.9999999999999"), lambda: decimal.Decimal("-0.00000000000000000000001"),
+    lambda: fractions.Fraction(2 ** 70 + 1, 2 ** 70), lambda: fractions.Fraction(-(2 ** 80) - 1, 2 ** 80),
+    lambda: decimal.Decimal("2147483647.00000000000000000000"), lambda: fractions.Fraction(2 ** 90, 2 ** 89),
 ]
 UNIVERSE = garbage.FACTORIES + EXTRA
 N_FIXED = len(UNIVERSE)
@@ -81,6 +86,11 @@ def random_value(rng):
         return rng.uniform(-1e3, 1e3)
     if r < 0.7:
         return rng.choice([1, -1]) * 10.0 ** rng.randint(-320, 308)
+    if r < 0.74:
+        # exact rationals a hair away from (or exactly at) an integer
+        k = rng.randint(55, 120)
+        return rng.choice([fractions.Fraction(base * 2 ** k + rng.choice([0, 1, -1]), 2 ** k),
+                           decimal.Decimal(base) + decimal.Decimal(rng.choice([0, 1, -1])).scaleb(-rng.randint(17, 40))])
     if r < 0.9:
         v = rng.choice([base + rng.randint(-2, 2), float(base) + rng.choice([0.0, 0.5])])
         s = repr(v)
@@ -572,7 +582,10 @@ async def check_value(ctx, v_factory, label):
 
 
 DT = [datetime.datetime(2020, 1, 2, 3, 4, 5), datetime.datetime(1999, 12, 31, 23, 59, 59), datetime.datetime(2000, 2, 29, 0, 0, 0),
-      datetime.datetime(1900, 1, 1, 0, 0, 1)]
+      datetime.datetime(1900, 1, 1, 0, 0, 1),
+      # boundaries of the textual form: years with fewer than four digits, the extremes, single-digit fields
+      datetime.datetime(999, 12, 31, 1, 2, 3), datetime.datetime(1000, 1, 1, 0, 0, 0), datetime.datetime(1, 1, 1, 0, 0, 0),
+      datetime.datetime(9999, 12, 31, 23, 59, 59), datetime.datetime(70, 3, 4, 5, 6, 7), datetime.datetime(2024, 2, 29, 12, 0, 0)]
 
 
 async def check_dates(ctx):
@@ -580,7 +593,9 @@ async def check_dates(ctx):
     e = await engine()
     sc = _ENGINE["scalars"]
     for dt in DT:
-        for S, text in (("Date", dt.strftime("%Y-%m-%d")), ("Time", dt.strftime("%H:%M:%S")), ("DateTime", dt.strftime("%Y-%m-%dT%H:%M:%S"))):
+        d_text = "%04d-%02d-%02d" % (dt.year, dt.month, dt.day)          # ISO 8601: four-digit year (strftime's %Y is not padded)
+        t_text = "%02d:%02d:%02d" % (dt.hour, dt.minute, dt.second)
+        for S, text in (("Date", d_text), ("Time", t_text), ("DateTime", d_text + "T" + t_text)):
             case = {"scalar": S, "value": text}
             st.inc("evaluations", 3)
             st.distinct("nontrivial", (S, "roundtrip", text))
